@@ -43,6 +43,10 @@ pub fn is_orbit_orientation_consistent<T: CoordsFloat>(
             };
 
             let crossp = Vertex2::cross_product_from_vertices(&new_v, &v1, &v2);
+            if crossp.is_zero() {
+                // flat triangle: it has no orientation (and `signum` would report +0.0 as positive)
+                return Ok(false);
+            }
             crossp.signum()
         };
         for &d in &tmp[1..] {
@@ -63,7 +67,7 @@ pub fn is_orbit_orientation_consistent<T: CoordsFloat>(
 
             let crossp = Vertex2::cross_product_from_vertices(&new_v, &v1, &v2);
 
-            if ref_sign != crossp.signum() {
+            if crossp.is_zero() || ref_sign != crossp.signum() {
                 return Ok(false);
             }
         }
